@@ -393,7 +393,8 @@ def atoms_of(o):
             k.update(role="param", livein=sh["li"], after=sh["fa"], surely_written=sh["dw"])
         else:
             k.update(role="param", first=sh["fi"], first_at=sh["fin"], firstread_at=sh["frn"], livein=sh["li"],
-                     write_after_inner_block=sh["wai"], result_also_missing=sh["v"] in miss_r_names)
+                     write_after_inner_block=sh["wai"], write_in_try=sh["wtry"],
+                     result_also_missing=sh["v"] in miss_r_names)
         out.append(k)
     for sh in miss_r:
         k = dict(base)
